@@ -233,7 +233,9 @@ def item_src(it):
     if c.get("rename_all"):
         lines.append("#[%s(rename_all = %s)]" % (an, rust_lit(c["rename_all"])))
     g = generics_src(it["params"])
-    if it["kind"] == "struct":
+    if it["kind"] == "union":
+        lines.append("union %s%s%s" % (it["name"], g, fields_src(it["fields"], an)))
+    elif it["kind"] == "struct":
         fs = it["fields"]
         body = fields_src(fs, an)
         lines.append("struct %s%s%s%s" % (it["name"], g, body, "" if fs["kind"] == "named" else ";"))
